@@ -395,13 +395,15 @@ class XBuffer(ABC):
             self.context = self._make_context()
         else:
             self.context = context
+        # python integers: all offset arithmetic derives from these
+        capacity = int(capacity)
         self.buffer = self._new_buffer(capacity)
         self.capacity = capacity
         if default_alignment is None:
             default_alignment = self.context.minimum_alignment
-        self.default_alignment = default_alignment
+        self.default_alignment = int(default_alignment)
         self.chunks = [Chunk(0, capacity)]
-        self.grow_step = grow_step
+        self.grow_step = None if grow_step is None else int(grow_step)
 
     @abstractmethod
     def _make_context(self):
